@@ -385,7 +385,8 @@ static void run_op(char** a, int na) {
     if (slots[k] >= 0) { close(slots[k]); slots[k] = -1; }
     if (uvr) { BEGIN(); rc = uv_fs_open(L, &req, ARG(2), flags, mode, CB); res = complete(&req, rc); print_res_fd(res); END(0); }
     else { res = open(ARG(2), flags | O_CLOEXEC, mode); if (res < 0) res = -(long) errno; print_res_fd(res); }
-    if (res >= 0) slots[k] = (int) res;
+    if (res >= 0) { slots[k] = (int) res; if (!(fcntl((int) res, F_GETFD) & FD_CLOEXEC)) { /* every route promises O_CLOEXEC */
+        char* x = strdup(tbuf); tlen = 0; t("NOT-CLOEXEC %s", x); free(x); } }
   } else if (!strcmp(op, "close")) {
     int k = slot_of(ARG(1)); cur_slot = k;
     if (uvr) { BEGIN(); rc = uv_fs_close(L, &req, slots[k], CB); res = complete(&req, rc); t("res=%ld", res); END(0); }
